@@ -262,6 +262,7 @@ impl CheckpointManager {
                     .file_name()
                     .to_str()
                     .is_some_and(|name| checkpoint_file_timestamp(name, &prefix).is_some())
+                    && entry.path().is_file()
             })
             .collect();
 
@@ -332,6 +333,7 @@ impl CheckpointManager {
                     .file_name()
                     .to_str()
                     .is_some_and(|name| checkpoint_file_timestamp(name, &prefix).is_some())
+                    && entry.path().is_file()
             })
             .collect();
 
@@ -376,6 +378,7 @@ impl CheckpointManager {
                     .file_name()
                     .to_str()
                     .is_some_and(|name| checkpoint_file_timestamp(name, &prefix).is_some())
+                    && entry.path().is_file()
             })
             .collect();
 
@@ -390,7 +393,8 @@ impl CheckpointManager {
 /// Timestamp of a checkpoint file name, if `name` is exactly `<prefix><decimal u64>.bin`.
 ///
 /// Anything else that merely starts with the prefix (another pipeline whose id extends this one,
-/// temporary or foreign files) is not a checkpoint of this pipeline.
+/// temporary or foreign files) is not a checkpoint of this pipeline. The directory scans additionally
+/// require the entry to be a file: a directory that happens to carry such a name is not a checkpoint.
 #[cfg(feature = "checkpointing")]
 fn checkpoint_file_timestamp(name: &str, prefix: &str) -> Option<u64> {
     let stamp = name.strip_prefix(prefix)?.strip_suffix(".bin")?;
